@@ -362,8 +362,16 @@ inline void redundant_recipe(Grid& t, int k, unsigned dim, int n, bool only_one)
     if (!only_one) t.refine_with_congruence((2 * e %= 0) / Coefficient(2));
   }
 }
+// modifier 3: bounds at half-integers in every variable (1/2 <= x_j <= (5 + 2j)/2)
+template <class T> void fractional_recipe(T& t, unsigned dim) {
+  for (unsigned j = 0; j < dim; ++j) {
+    t.refine_with_constraint(2 * Variable(j) >= 1);
+    t.refine_with_constraint(2 * Variable(j) <= Coefficient(5 + 2 * (int) j));
+  }
+}
 template <class T> void apply_modifier(T& t, int r, int k, unsigned dim, int n) {
   int mod = r / 16;
+  if (mod == 3) { fractional_recipe(t, dim); return; }
   if (mod == 1) redundant_recipe(t, k, dim, n, false);
   else if (mod == 2) { (void) t.is_empty(); (void) t.is_bounded(); redundant_recipe(t, k, dim, n, true); }
 }
